@@ -453,8 +453,9 @@ class DriverLubaRs232(DriverSerialBase):
                     f"LUBA RX DALI queue not empty! {qlen} items in queue!"
                 )
                 try:
-                    item = self._queue_rx_raw_dali.get_nowait()
-                    _LOG.critical(f"LUBA RX DALI queue discarding: {item}")
+                    while True:
+                        item = self._queue_rx_raw_dali.get_nowait()
+                        _LOG.critical(f"LUBA RX DALI queue discarding: {item}")
                 except asyncio.QueueEmpty:
                     pass
 
@@ -1293,8 +1294,9 @@ class DriverSCIRS232(DriverSerialBase):
                     f"SCI RS232 RX DALI queue not empty! {qlen} items in queue!"
                 )
                 try:
-                    item = self._queue_rx_raw_dali.get_nowait()
-                    _LOG.critical(f"SCI RS232 RX DALI queue discarding: {item}")
+                    while True:
+                        item = self._queue_rx_raw_dali.get_nowait()
+                        _LOG.critical(f"SCI RS232 RX DALI queue discarding: {item}")
                 except asyncio.QueueEmpty:
                     pass
 
@@ -1305,8 +1307,9 @@ class DriverSCIRS232(DriverSerialBase):
                     f"SCI RS232 RX info DALI queue not empty! {qlen} items in queue!"
                 )
                 try:
-                    item = self._queue_rx_info.get_nowait()
-                    _LOG.critical(f"SCI RS232 RX info DALI queue discarding: {item}")
+                    while True:
+                        item = self._queue_rx_info.get_nowait()
+                        _LOG.critical(f"SCI RS232 RX info DALI queue discarding: {item}")
                 except asyncio.QueueEmpty:
                     pass
 
